@@ -494,6 +494,9 @@ pub fn bind_if_stat(binder: &mut FlowBinder, if_stat: LuaIfStat, current: FlowId
         if let Some(else_block) = else_block {
             let block_id = bind_block(binder, else_block, else_label);
             binder.add_antecedent(post_if_label, block_id);
+        } else {
+            // An empty `else` has no block node, but its path still reaches the code after the `if`.
+            binder.add_antecedent(post_if_label, else_label);
         }
     } else {
         binder.add_antecedent(post_if_label, else_label);
